@@ -11,7 +11,10 @@ use crate::{
     Fragment, Property,
     Signal::{self, Medium, Strong, Weak},
 };
+#[cfg(not(feature = "verif"))]
 use once_cell::sync::Lazy;
+#[cfg(feature = "verif")]
+use crate::verif::Lazy;
 use std::{collections::BTreeMap, sync::Arc};
 
 /// The figure below is a Cell that can contain 1 character, divided into 32 equal small rectangles called CellGrid.
